@@ -3,7 +3,7 @@
 fn main() {
     ecverif::microrun::main_for(
         ecverif::microrun::Profile { key: "c01", drops: false, timeouts: false, tx_fail: false, rx_noise: true, only: &[] },
-        150,
+        300,
         4000,
     );
 }
